@@ -1237,10 +1237,6 @@ func (f *Flooder) markSleepCmdSeen(originAgent identity.AgentID, commandID uint6
 // HandleSleepCommand processes an incoming SLEEP_COMMAND frame.
 // Returns true if the command was new and should be processed.
 func (f *Flooder) HandleSleepCommand(fromPeer identity.AgentID, cmd *protocol.SleepCommand) bool {
-	if !f.markSleepCmdSeen(cmd.OriginAgent, cmd.CommandID, fromPeer) {
-		return false
-	}
-
 	if containsAgent(cmd.SeenBy, f.localID) {
 		return false
 	}
@@ -1252,6 +1248,13 @@ func (f *Flooder) HandleSleepCommand(fromPeer identity.AgentID, cmd *protocol.Sl
 			"command_id", cmd.CommandID,
 			"from_peer", fromPeer.ShortString(),
 			logging.KeyError, err)
+		return false
+	}
+
+	// Only an authenticated command is recorded as seen: marking before
+	// verification lets any peer pre-empt a genuine command with its
+	// (origin, id) and fill the cache with unauthenticated entries.
+	if !f.markSleepCmdSeen(cmd.OriginAgent, cmd.CommandID, fromPeer) {
 		return false
 	}
 
@@ -1270,10 +1273,6 @@ func (f *Flooder) HandleSleepCommand(fromPeer identity.AgentID, cmd *protocol.Sl
 // HandleWakeCommand processes an incoming WAKE_COMMAND frame.
 // Returns true if the command was new and should be processed.
 func (f *Flooder) HandleWakeCommand(fromPeer identity.AgentID, cmd *protocol.WakeCommand) bool {
-	if !f.markSleepCmdSeen(cmd.OriginAgent, cmd.CommandID, fromPeer) {
-		return false
-	}
-
 	if containsAgent(cmd.SeenBy, f.localID) {
 		return false
 	}
@@ -1285,6 +1284,11 @@ func (f *Flooder) HandleWakeCommand(fromPeer identity.AgentID, cmd *protocol.Wak
 			"command_id", cmd.CommandID,
 			"from_peer", fromPeer.ShortString(),
 			logging.KeyError, err)
+		return false
+	}
+
+	// Only an authenticated wake command is recorded as seen (see HandleSleepCommand).
+	if !f.markSleepCmdSeen(cmd.OriginAgent, cmd.CommandID, fromPeer) {
 		return false
 	}
 
